@@ -15,6 +15,14 @@ Init == tid \in 1 .. Len(Cases) /\ stage = "pair" /\ fails = <<>>
 
 RowsAgree(P(_, _)) == Len(c.A.rows) = Len(c.B.rows) /\ \A k \in 1 .. Len(c.A.rows) : P(c.A.rows[k], c.B.rows[k])
 
+\* what bycycle hands to the filter design in the two runs must be the same request in the two unit systems: same length in cycles, no length
+\* in seconds (the pairs use none), sampling rate and band edges in the same proportion.  Only then does a differing filter length / filter
+\* output say something about the environment (neurodsp) rather than about bycycle's own plumbing.
+SameProportion(x, y, u, v) == x[1] * v[1] * y[2] * u[2] = y[1] * u[1] * x[2] * v[2]       \* x / y = u / v on <<numerator, denominator>> pairs
+ArgsCovariant(a, b) == /\ a.seen = b.seen
+                       /\ (a.seen => /\ a.ncyc = b.ncyc /\ IsNaN(a.nsec) /\ IsNaN(b.nsec)
+                                     /\ ~IsNaN(a.fs) /\ ~IsNaN(b.fs) /\ SameProportion(a.fs, b.fs, a.flo, b.flo) /\ SameProportion(a.fs, b.fs, a.fhi, b.fhi))
+
 Clauses ==
   IF c.A.raised # "" \/ c.B.raised # ""
   THEN Fail(c.A.raised # "" /\ c.B.raised # "", c.rel \o ".only_one_run_raised")
@@ -29,7 +37,8 @@ Clauses ==
            \o Fail(RowsAgree(ScaledRow), "C10.amp.table")
            \o Fail(c.A.pos = c.B.pos /\ c.A.mask = c.B.mask, "C10.env.filter_or_detector_not_scale_invariant")
          [] OTHER ->
-              Fail(Len(c.A.rows) = Len(c.B.rows), "C10.fs.row_count")
+              Fail(ArgsCovariant(c.A.flen, c.B.flen) /\ ArgsCovariant(c.A.filt, c.B.filt), "C10.fs.filter_arguments_not_in_the_same_units")
+           \o Fail(Len(c.A.rows) = Len(c.B.rows), "C10.fs.row_count")
            \o Fail(RowsAgree(SameRow), "C10.fs.table")
            \o Fail(c.A.pos = c.B.pos /\ c.A.mask = c.B.mask /\ c.A.L = c.B.L, "C10.env.filter_or_detector_depends_on_units")
 
